@@ -29,3 +29,9 @@ Definition all_started_cancelled_b (l : list obs) : bool := forallb (fun t => me
 Definition quiescent_ok_b (sizes : nat * nat * nat) (l : list obs) : bool :=
   match sizes with (a, b, c) => (a =? 0) && (b =? 0) && (c =? 0) end
   && counters_balanced_b l && all_started_cancelled_b l.
+
+(* implementation-side reading of c13_teardown_has_cause: per schedule step, the trigger instances
+   whose context was cancelled while a call of the updater of instance [owner] was running (both named
+   by the subscriber that started them) must be that instance *)
+Definition teardown_own_b (steps : list (option nat * list nat)) : bool :=
+  forallb (fun oc => match fst oc with Some a => forallb (Nat.eqb a) (snd oc) | None => true end) steps.
